@@ -192,6 +192,28 @@ def compare_contract_result(impl: dict, model: dict, vm: C.VarMap) -> Optional[s
         + f" ins={a['ok']['ins']} outs={a['ok']['outs']}"
 
 
+def operand_damage(pairs) -> Optional[str]:
+    """after an operation raised: every operand must still be what it was built from, and usable (C14: "an error leaves all
+    operands usable").  pairs = [(specification dictionary, live contract object)]"""
+    for n, (spec, obj) in enumerate(pairs):
+        try:
+            now = G.un_contract(obj)
+            was = G.un_contract(G.mk_contract(spec, simplify=False))
+        except Exception as e:  # noqa
+            return f"operand {n} cannot be read back after the error: {type(e).__name__}: {str(e)[:120]}"
+        if now != was:
+            return f"operand {n} changed from {was} to {now}"
+        try:
+            G.mk_contract(spec, simplify=False).copy()
+        except Exception:  # noqa
+            continue     # the operand was unusable to begin with (an unsatisfiable contract built without simplification)
+        try:
+            obj.copy()
+        except Exception as e:  # noqa
+            return f"operand {n}.copy() raises {type(e).__name__} after the error: {str(e)[:120]}"
+    return None
+
+
 def run_op(case: dict) -> dict:
     """compose / quotient / merge on the real PolyhedralIoContract, with tactic-5 hints recorded"""
     hints: list = []
@@ -213,7 +235,11 @@ def run_op(case: dict) -> dict:
             else:
                 r, used = c1.merge(c2), []
         except Exception as e:
-            return {"err": C.classify_exc(e), "msg": str(e)[:200], "hints": hints}
+            out = {"err": C.classify_exc(e), "msg": str(e)[:200], "hints": hints}
+            dmg = operand_damage([(case["c1"], c1), (case["c2"], c2)])
+            if dmg:
+                out["damage"] = dmg
+            return out
         return {"ok": G.un_contract(r), "tactics": [[int(u[0]) for u in lst] for lst in used], "hints": hints}
     finally:
         undo()
